@@ -65,6 +65,9 @@ THEOREMS = [
     "JanetModel.Props.C08.lock_use_counterexample",
     "JanetModel.Props.C08.refcount_counterexample",
     "JanetModel.Props.C08.refcount_leak_counterexample",
+    "JanetModel.Props.C08.shared_never_stranded",
+    "JanetModel.Props.C08.stranded_counterexample",
+    "JanetModel.Props.C08.deinit_leak_counterexample",
 ]
 CURRENT = [
     "JanetModel.Thread.Current.exactly_once_current",
@@ -78,6 +81,7 @@ CURRENT = [
     "JanetModel.Thread.Current.thread_args_roundtrip_current",
     "JanetModel.Thread.Current.thread_returns_after_body_current",
     "JanetModel.Thread.Current.refcount_ge_reachers_current",
+    "JanetModel.Thread.Current.shared_never_stranded_current",
     "JanetModel.Thread.Current.lock_types_shape",
     "JanetModel.Thread.Current.locks_valid_while_reachable_current",
 ]
